@@ -344,9 +344,10 @@ class Interp:
             raise OutOfReach(f"assignment target {type(target).__name__}")
 
     def s_If(self, node, env):
-        if self.try_merge_if(node, env):
+        testval = self.eval(node.test, env)          # evaluated exactly once (it may have side effects)
+        if self.try_merge_if(node, env, testval):
             return
-        if self.truth(self.eval(node.test, env)):
+        if self.truth(testval):
             self.exec_block(node.body, env)
         else:
             self.exec_block(node.orelse, env)
@@ -360,12 +361,15 @@ class Interp:
             elif isinstance(s, ast.AugAssign) and isinstance(s.target, ast.Name):
                 names.add(s.target.id)
             elif isinstance(s, ast.Pass):
-                pass
+                continue
             else:
+                return None
+            # speculative execution of both arms is only sound for side-effect free right-hand sides
+            if any(isinstance(n, (ast.Call, ast.Yield, ast.YieldFrom, ast.Await)) for n in ast.walk(s.value)):
                 return None
         return names
 
-    def try_merge_if(self, node, env):
+    def try_merge_if(self, node, env, testval):
         c = ctx_or_none()
         if c is None:
             return False
@@ -381,7 +385,7 @@ class Interp:
         c.nofork += 1
         try:
             try:
-                cond = ops.truth_term(self.eval(node.test, env))
+                cond = ops.truth_term(testval)
                 if cond is None or isinstance(cond, bool):
                     return False
                 old = {n: env.vars[n] for n in names}
